@@ -23,6 +23,16 @@ add('C11', 'TLA+ spec MeshTopology: TLC model checking of the build_entities/bui
     'random integer Delaunay / renumbered / re-ordered meshes (code->spec). Bounded-exhaustive, not a proof.',
     'DESIGN.md section 5 C11')
 
+add('C05', 'TLA+ spec BC: TLC model checking of the enforce/condense/penalize/expand transcriptions over every stored '
+    'pattern of n<=3 systems and every ordered constrained set + replay of the TLC-enumerated systems on the real '
+    'helpers + TLC trace validation of recorded calls (exact integer universe; real-solver pipelines in fixed point)',
+    'TLC decides every C05 clause (constrained rows exactly diag*e_i incl. rows without stored entries, other rows '
+    'untouched, right-hand sides, condensed matrix/rhs entrywise = same-solution identity, expansion, eigen reduction, '
+    'penalize rows/rhs, operands unchanged, split equivalence across I/D and ndarray/DofsView/dict forms) on the model '
+    'exhaustively for n<=3 and on every recorded call of the real code for TLC-exported and random integer systems '
+    'n<=10. The pre-repair enforce formula is kept as a regression model and is refuted by TLC.',
+    'DESIGN.md section 5 C05')
+
 NOT_YET = "check not built yet (implementation in progress; see DESIGN.md section 8 for the plan)"
 NA = {'C09': "no state, transitions or discrete core: ~70 closed-form derivative formulas; TLA+/TLC cannot express "
              "real differentiation except as a numeric harness with TLC as calculator (DESIGN.md section 6)"}
